@@ -28,7 +28,7 @@ func c18tls(c *Ctx) {
 	for _, b := range d.dial.Blocks {
 		for _, in := range b.Instrs {
 			if call, isCall := in.(*ssa.Call); isCall {
-				if f := call.Call.StaticCallee(); f != nil && extName(f) == "net/url.Parse" {
+				if f := call.Call.StaticCallee(); f != nil && (extName(f) == "net/url.Parse" || c.returnsParsedURL(f)) {
 					for _, ref := range *call.Referrers() {
 						if ex, isEx := ref.(*ssa.Extract); isEx && ex.Index == 0 {
 							parsedURL = ex
@@ -145,9 +145,11 @@ func c18tls(c *Ctx) {
 	// dial address is hostPort of the backend URL
 	{
 		good := false
-		if ex, isEx := site.Call.Args[2].(*ssa.Extract); isEx && ex.Index == 0 {
-			if call, isCall := ex.Tuple.(*ssa.Call); isCall && call.Call.StaticCallee() == hostPort && call.Call.Args[0] == parsedURL {
-				good = true
+		for _, a := range site.Call.Args { // the address argument, wherever the dial helper takes it
+			if ex, isEx := a.(*ssa.Extract); isEx && ex.Index == 0 && isStringType(ex.Type()) {
+				if call, isCall := ex.Tuple.(*ssa.Call); isCall && call.Call.StaticCallee() == hostPort && call.Call.Args[0] == parsedURL {
+					good = true
+				}
 			}
 		}
 		r.Check("C18.connect", shortFn(d.dial), "dial-address-is-backend-hostport", site.Pos(), good, "the address dialed (and CONNECTed to) must be hostPort of the URL being dialed")
@@ -181,7 +183,7 @@ func c18tls(c *Ctx) {
 	}
 	// the TLS-wrapping first hop
 	{
-		fn := c.fn("netDialWithTLSHandshake$1")
+		fn := c.returnedFunc("netDialWithTLSHandshake")
 		ok, why := true, "dial, tls.Client(conn, clone(cfg)) with ServerName defaulting to hostNoPort(u), doHandshake(ctx, tlsConn, cfg) == nil before returning tlsConn"
 		n := 0
 		c.explore("C18.verify", fn, core.Opts{NonNilOnNilErr: true}, func(p *core.Path) {
@@ -216,7 +218,7 @@ func c18tls(c *Ctx) {
 			if hs.Args[1] != tc.Result || hs.Args[2] != tc.Args[1] || !hasLit(p, len(p.Lits), true, func(t *core.Term) bool { return isEqNil(t, is(hs.Result)) }) {
 				ok, why = false, "the TLS connection is returned without a successful doHandshake on it with its own config"
 			}
-			if !(hp.Args[0].Kind == core.KFree || (hp.Args[0].Kind == core.KLoad && hp.Args[0].Args[0].Kind == core.KFree)) {
+			if !isCapturedState(fn, hp.Args[0]) {
 				ok, why = false, "the host used for verification is not taken from the URL being dialed"
 			}
 			emptyName := hasLit(p, len(p.Lits), true, func(t *core.Term) bool {
@@ -240,7 +242,8 @@ func c18tls(c *Ctx) {
 			if p.End != core.EndReturn || len(p.Results) != 1 {
 				return
 			}
-			if res := p.Results[0]; !res.IsNil() {
+			resNil := p.Results[0].IsNil() || hasLit(p, len(p.Lits), true, func(t *core.Term) bool { return isEqNil(t, is(p.Results[0])) })
+			if res := p.Results[0]; !resNil {
 				// returning the verdict of VerifyHostname itself is the same as testing it
 				isVH := false
 				if res.Kind == core.KCall {
@@ -433,4 +436,37 @@ func c18connect(c *Ctx) {
 		}
 	})
 	r.Check("C18.connect", shortFn(fn), "connect-exchange", fn.Pos(), ok && nOK > 0 && nRefused > 0, why)
+}
+
+// returnsParsedURL: an in-package helper (extracted by a later refactoring)
+// whose first result is, on every return, the URL produced by url.Parse in
+// that helper (or nil next to an error).
+func (c *Ctx) returnsParsedURL(f *ssa.Function) bool {
+	if f == nil || !c.P.InPkg(f) || f.Signature.Results().Len() < 1 || !isURLPtr(f.Signature.Results().At(0).Type()) || !c.isNewHelper(f, 1) {
+		return false
+	}
+	n := 0
+	for _, b := range f.Blocks {
+		for _, in := range b.Instrs {
+			ret, ok := in.(*ssa.Return)
+			if !ok {
+				continue
+			}
+			switch v := ret.Results[0].(type) {
+			case *ssa.Const:
+				if v.Value != nil {
+					return false
+				}
+			case *ssa.Extract:
+				call, isCall := v.Tuple.(*ssa.Call)
+				if !isCall || v.Index != 0 || call.Call.StaticCallee() == nil || extName(call.Call.StaticCallee()) != "net/url.Parse" {
+					return false
+				}
+				n++
+			default:
+				return false
+			}
+		}
+	}
+	return n > 0
 }
